@@ -63,8 +63,17 @@ func takeApart(b *c19Base) (*c19Parts, error) {
 // whose CRC matches. Offsets and sizes follow the parts; hash and
 // UncompressedSize of a block are recomputed unless keepMeta says the
 // mutation set them deliberately.
+// lastAssembledPlain is the number of row-stream bytes the most recently assembled file really
+// decodes to (a re-assembled file may legitimately decode to more than the base file did, e.g.
+// with a doubled row stream; the allocation bound of that input follows what is really there).
+var lastAssembledPlain int
+
 func (p *c19Parts) assemble(keepUncompressed map[int]bool) []byte {
 	var out bytes.Buffer
+	lastAssembledPlain = 0
+	for _, pl := range p.plain {
+		lastAssembledPlain += len(pl)
+	}
 	meta := p.meta
 	meta.DataBlocks = append([]extfmt.Block(nil), p.meta.DataBlocks...)
 	for i := range meta.DataBlocks {
